@@ -226,7 +226,7 @@ LINKS = {
     "Sequence.get_interleaved_message_pairings": ("LSeq.interleaved", "Model/Pairing.lean `interleaved` with the defaults standard_length=PPQN, impute_notes=True (checked in the AST)"),
     "Sequence.add_absolute_message": ("LSeq.addAbs", "AbsoluteSequence.add_message = binary_insort = `insort` (Props/ViewTie.binaryInsort_eq)"),
     "bin_velocity": ("binIndex", "np.digitize(v, bins, right=True) = number of bins below v (non-decreasing bins)"),
-    "get_velocity_bins": ("linkVelocityBins", "table Gen.velocityBinsTable evaluated from util.get_velocity_bins, n = 1..64"),
+    "get_velocity_bins": ("linkVelocityBinsFn", "Model/TokLib3.lean: the TRANSLATED `Gen.Util.getVelocityBins none (some n)` (tools/py2lean_util.py, from util.py on every run) read as ints; every n, n = 0 raises ZeroDivisionError; equal to the table `linkVelocityBins` on 1..64 (`TokLib3.linkVelocityBinsFn_table`)"),
     "get_default_step_sizes(lower_bound_shift=1)": ("SCoda.Gen.defaultStepSizesShift1", "evaluated by tools/gen_lean.py"),
     "get_default_note_values()": ("SCoda.Gen.defaultNoteValues", "evaluated by tools/gen_lean.py"),
     "CircleOfFifths.get_position": ("linkCof", "Gen.getPosition, itself generated from music_theory.py"),
@@ -392,6 +392,7 @@ class Registry:
         self.order = []
         self.in_progress = set()
         self.links_used = []
+        self.defaults = []    # the defaulted parameters as written in the source: "method(param=default)"
         self.extra_defs = []
         self.class_attrs = {}
         self.prefixes = prefix_names()
@@ -2115,6 +2116,7 @@ class FnTranslator:
             self.own_params.append((a.arg, ty))
             if d is not None:
                 default_notes.append(f"{a.arg}={ast.unparse(d)}")
+                self.reg.defaults.append(f"{self.name}({a.arg}={ast.unparse(d)})")
         root = Block((), fn.body)
         self.path = ()
         self.stmts(fn.body, root)
@@ -2232,7 +2234,7 @@ def gen_tok_fns():
     L = []
     L.append("/- GENERATED by tools/py2lean_tok.py (through tools/gen_lean.py) from /repo — do not edit.")
     L.append(f"   Statement-by-statement translation of `{CLS}` ({SRC}) into `do` blocks over")
-    L.append("   `Except PyErr`.  Conventions: docstring of tools/py2lean_tok.py; support library: Model/TokLib.lean, Model/TokLib2.lean.")
+    L.append("   `Except PyErr`.  Conventions: docstring of tools/py2lean_tok.py; support library: Model/TokLib.lean, Model/TokLib2.lean, Model/TokLib3.lean.")
     L.append("   Tied to the hand models (Model/Token.lean, Model/Render.lean) by lean/SCoda/Props/TokTie.lean.")
     L.append("")
     L.append("   LINK TABLE — callees that are not translated but mapped to an existing Lean function (assumptions):")
@@ -2241,6 +2243,7 @@ def gen_tok_fns():
         L.append(f"     {key} ↦ {LINKS[key][0]}   [{used}]  {LINKS[key][1]}")
     L.append("-/")
     L.append("import SCoda.Model.TokLib2")
+    L.append("import SCoda.Model.TokLib3")
     L.append("set_option linter.unusedVariables false")
     L.append("namespace SCoda.Gen.Tok")
     L.append("open SCoda SCoda.TokLib")
@@ -2255,6 +2258,9 @@ def gen_tok_fns():
     L.append("/-- the translated methods, in dependency order: (Python name, Lean name) -/")
     L.append("def translated : List (String × String) := [" + ", ".join(
         f'("{k}", "{reg.done[k][0].lean}")' for k in reg.order) + "]")
+    L.append("/-- the defaulted parameters as written in the source -/")
+    L.append("def defaults : List String := [" + ", ".join(
+        '"' + d.replace("\\", "\\\\").replace('"', '\\"') + '"' for d in reg.defaults) + "]")
     L.append("")
     L.extend(reg.extra_defs)
     for key in reg.order:
